@@ -1,6 +1,7 @@
 (* C05/Proofs.v — lemmas about the GENERATED loader table (Gen.expr_of), one case per column. *)
 From Coq Require Import ZArith QArith Reals Qreals List Bool Lra Psatz.
-From Abacus.C05 Require Import Expr Gen Spec Model.
+From Abacus.HaloTable Require Import Expr Gen Values.
+From Abacus.C05 Require Import Spec.
 Local Open Scope R_scope.
 
 (* unfold the value of one concrete column down to arithmetic over raw values and the unit symbols *)
